@@ -9,7 +9,9 @@ Definition name := N.
 Definition dotted := list name.            (* a.b.c *)
 
 (* spaced so that the harness can give every other name an id in the right gap of the string order *)
-Definition n_star   : name := 0%N.         (* "*"          *)
+(* id 0 is the empty string: a relative import `from ..m import x` has modname ["", "", m] (joined with "." this is
+   "..m.x", Import.fullname) *)
+Definition n_star   : name := 500%N.       (* "*"          *)
 Definition n_all    : name := 1000%N.      (* "__all__"    *)
 Definition n_class  : name := 2000%N.      (* "__class__"  *)
 Definition n_future : name := 3000%N.      (* "__future__" *)
